@@ -551,14 +551,18 @@ ANCHORS = ["pyflyby._util:Aspect.__init__", "pyflyby._util:Aspect.advise", "pyfl
            "pyflyby._interactive:AutoImporter._safe_call", "pyflyby._interactive:AutoImporter._advise",
            "pyflyby._interactive:AutoImporter.reset_state_new_cell", "pyflyby._interactive:enable_auto_importer",
            "pyflyby._interactive:disable_auto_importer", "pyflyby._interactive:load_ipython_extension",
-           "pyflyby._interactive:unload_ipython_extension"]
+           "pyflyby._interactive:unload_ipython_extension", "pyflyby._interactive:AutoImporter._continue_enable",
+           "pyflyby._interactive:AutoImporter._from_app", "pyflyby._interactive:AutoImporter._construct",
+           "pyflyby._dynimp:add_import", "pyflyby._dynimp:_add_import"]
 
 
 def run(ctx):
     cm.check_anchors(ctx, ANCHORS)
     n = (150 if ctx.quick else 400) * ctx.scale
     ctx.coverage["rule"] = ("operation sequences of length 1-6 over {Enable, EnableAgain, Disable, LoadExt, UnloadExt, ReloadExt, "
-                            "LoadFn, UnloadFn, run-cell, complete} + a final Disable, one fresh real shell per sequence, "
+                            "LoadFn, UnloadFn, add_import, run-cell (known name / name registered with add_import), complete} + a final Disable, "
+                            "one fresh real shell per sequence, every 4th sequence starting BEFORE app.initialize() (enable / disable calls, then "
+                            "Initialize), every 7th an add_import followed by an off/on cycle, "
                             "10% under the jedi completer, 4% at PYFLYBY_LOG_LEVEL=DEBUG; thorough adds every sequence of "
                             "length <= 3 (<= 4 with 12 or more jobs) over the eight operations; non-trivial = the sequence reached ENABLED")
     ctx.assumptions += [
